@@ -17,7 +17,10 @@ are the definitions regenerated from the headers by the translator (`Gen.Box3.*`
 Hand-written here: the control flow (early returns, affine test), the Arvo accumulation loop and the
 enumeration of the eight corners.  Generic scalar `α` (executed at `Rat`/`Int` by `Driver/BoxTransform.lean`,
 reasoned about over an ordered field in `Lemmas/BoxTransformLemmas.lean`).  `S = T` (box and matrix have
-the same element type; the casts `(S) m[j][i]` are identities).
+the same element type; the casts `(S) m[j][i]` are identities; `S ≠ T` is run by the harness on values exact in both types).
+
+Since the strengthening round this model is no longer only sampled against the code: `Props/C13Transform.lean` proves it
+EQUAL, for every box and matrix, to the four overloads as regenerated from the header (`Gen/C13Transform.lean`).
 -/
 namespace ImathVerif.BoxTransform
 open ImathVerif
@@ -32,6 +35,10 @@ def emptyOrInfinite (tmax tlowest : α) (b : Box3 α) : Bool :=
 /-- `if (m[0][3] == 0 && m[1][3] == 0 && m[2][3] == 0 && m[3][3] == 1)` -/
 def isAffine (m : M44 α) : Bool :=
   decide (m.x03 = 0) && decide (m.x13 = 0) && decide (m.x23 = 0) && decide (m.x33 = 1)
+
+/-- `m` with its last column replaced by `(0,0,0,1)`: what the `*_affine` extraction entries (harness/sym/ops_c13t.h) pass to
+the real code, so that the affine test folds -/
+def affineCol (m : M44 α) : M44 α := { m with x03 := 0, x13 := 0, x23 := 0, x33 := 1 }
 
 /-- body of the inner `j` loop: `a = m[j][i]*box.min[j]; b = m[j][i]*box.max[j];
 if (a < b) { min[i] += a; max[i] += b; } else { min[i] += b; max[i] += a; }`; `acc = (min[i], max[i])` -/
